@@ -4,6 +4,8 @@ import (
 	"fmt"
 	"sort"
 
+	"verif/harness/spec"
+
 	"verif/harness/ref"
 	"verif/harness/render"
 	"verif/harness/yx"
@@ -15,12 +17,14 @@ type c09 struct{}
 func init() { register(c09{}) }
 
 func (c09) ID() string { return "C09" }
-func (c09) NumCases(tier string) int {
+func (c09) regularCases(tier string) int {
 	if tier == "thorough" {
-		return len(families) + 60000
+		return len(families) + 200000
 	}
 	return len(families) + 5000
 }
+func (p c09) NumCases(tier string) int { return p.regularCases(tier) + tinyCases(tier) }
+func (c09) Extra(tier string) map[string]interface{} { return tinyExtra(tier) }
 func (c09) Rule() string {
 	return "case = one grammar (curated families, then random grammars incl. nullable/recursive/cyclic/duplicate-rule shapes) built in-process by the real ParseAndBuild; its LR0Closure (item sets, GoTo, Index) is compared with a reference canonical LR(0) collection computed from yaccgo's own rule list; non-trivial = grammar accepted by yaccgo with >= 4 states; distinct by (rules, item sets) hash"
 }
@@ -31,12 +35,21 @@ func (c09) DiedIsViolation() bool      { return false }
 func (c09) MinNontrivial(t string) int { return 200 }
 
 func (c09) Run(seed int64, tier string, idx int) Outcome {
+	p := c09{}
+	reg := p.regularCases(tier)
+	if idx >= reg {
+		return tinyBatch("C09", idx-reg, true, p.runOn)
+	}
 	r := caseRng(seed, "C09", idx)
 	cfg := stdCfg
 	if idx%3 == 0 {
 		cfg = bigCfg
 	}
 	g := pickGrammar(r, idx, true, cfg)
+	return p.runOn(g, idx)
+}
+
+func (c09) runOn(g *spec.Grammar, idx int) Outcome {
 	g.NoAction = true
 	text := render.Render(g, plainParts, render.Options{})
 	o := Outcome{Status: "held", Replay: map[string]interface{}{"grammar": text}}
